@@ -192,5 +192,5 @@ func init() { register("C19", checkC19) }
 
 func TestC19(t *testing.T) {
 	// evaluations are counted per (history, fault point, query) inside the check
-	runProp(t, "C19", checkC19, nil, part[c19Case]{"fault-enumeration", scale(40, 400), genC19})
+	runProp(t, "C19", checkC19, nil, part[c19Case]{"fault-enumeration", scale(100, 400), genC19})
 }
